@@ -342,6 +342,59 @@ def tables_level(ctx):
                                     "findTable / getGDEFGlyphClasses / GdefFeatureWriter.setContext")
 
 
+def context_split_section(ctx):
+    """a hand-written kern feature with the marker IN THE MIDDLE whose rules stand under script / language / lookupflag statements
+    (and useExtension): the generated rules are spliced in at the marker, and the user's rules BEFORE and AFTER it apply to exactly
+    the language systems, with exactly the values, they apply to when no writer runs (judged on the compiled GPOS, per language
+    system, through harness/otl.Layout)"""
+    import ufo2ft
+    from fontTools.ttLib import TTFont
+    from harness.otl import Layout
+    glyphs = [{"name": n, "unicodes": [u], "width": 500, "contours": [[(Fr(0), Fr(0), "line"), (Fr(50), Fr(0), "line"), (Fr(50), Fr(50), "line")]], "anchors": []}
+              for n, u in (("A", 0x41), ("V", 0x56), ("T", 0x54), ("o", 0x6F), ("acutecomb", 0x301))]
+    VARIANTS = [
+        ("language", "", "    script latn;\n    language TRK exclude_dflt;\n"),
+        ("script only", "", "    script latn;\n"),
+        ("lookupflag", "", "    lookupflag IgnoreMarks;\n"),
+        ("script + language + lookupflag", "", "    script latn;\n    language TRK;\n    lookupflag IgnoreMarks;\n"),
+        ("useExtension", " useExtension", "    script latn;\n    language TRK exclude_dflt;\n"),
+        ("context set twice", "", "    script latn;\n    language TRK exclude_dflt;\n    pos T o -5;\n    script DFLT;\n"),
+    ]
+    for i in range(ctx.budget(len(VARIANTS), 2 * len(VARIANTS))):
+        label, ext, ctxt = VARIANTS[i % len(VARIANTS)]
+        lib = ["ufoLib2", "defcon"][(i // len(VARIANTS)) % 2]
+        fea = ("languagesystem DFLT dflt;\nlanguagesystem latn dflt;\nlanguagesystem latn TRK;\n"
+               "feature kern%s {\n%s    pos A V -10;\n    # Automatic Code\n    pos V A -20;\n} kern;\n" % (ext, ctxt))
+        desc = {"glyphs": glyphs, "features": fea, "kerning": {("T", "o"): Fr(-30)},
+                "lib": {"public.openTypeCategories": {"acutecomb": "mark", "A": "base", "V": "base", "T": "base", "o": "base"}}}
+        case = {"features": fea, "variant": label, "lib": lib}
+        ctx.count(); ctx.klass("marker in the middle under %s" % label); ctx.nontriv(("ctxsplit", i, ctx.scale))
+        try:
+            lays = []
+            for writers in (None, []):
+                kw = {} if writers is None else {"featureWriters": writers}
+                tt = ufo2ft.compileTTF(build_font(desc, lib), useProductionNames=False, **kw)
+                b = io.BytesIO(); tt.save(b); lays.append(Layout(TTFont(io.BytesIO(b.getvalue()))))
+        except Exception as e:
+            ctx.spec_failure(case, "compile raised %s: %s\n%s" % (type(e).__name__, e, traceback.format_exc()[-800:]))
+            continue
+        with_w, without = lays
+        for tag, lang in (("DFLT", "dflt"), ("latn", "dflt"), ("latn", "TRK ")):
+            # (a language system the user's feature does not name has no record of its own without the writers and falls back
+            # to the script's default one; the generated kern block names every declared language, which ends that fallback
+            # -- not what this section is about: only language systems with a record in BOTH fonts are compared)
+            if lang != "dflt" and not (lang in with_w.scripts().get(tag, {}) and lang in without.scripts().get(tag, {})):
+                continue
+            for a, b_ in (("A", "V"), ("V", "A")):
+                v1 = with_w.pair_adjust(with_w.lookups_for(tag, {"kern"}, lang=lang), a, b_)[0]
+                v0 = without.pair_adjust(without.lookups_for(tag, {"kern"}, lang=lang), a, b_)[0]
+                if v1 != v0:
+                    ctx.spec_failure(dict(case, script=tag, language=lang, pair=[a, b_]),
+                                     "the user's rule for (%s, %s) gives %r under %s/%s with the automatic writers and %r without them" % (a, b_, v1, tag, lang.strip(), v0))
+        if with_w.pair_adjust(with_w.lookups_for("latn", {"kern"}), "T", "o")[0] != (-30 if "twice" not in label else -30):
+            ctx.spec_failure(case, "the generated kerning (T, o) = -30 is not applied under latn")
+
+
 def handwritten_features_section(ctx):
     """for EVERY feature the default writers can generate (kern, mark, mkmk, curs) on a font that gives each of them work: a
     hand-written block of that feature without the marker (or with a mis-cased one) stays the only block of that feature and
@@ -624,6 +677,7 @@ def compile_level(ctx):
     gdef_todo_level(ctx)
     tables_level(ctx)
     handwritten_features_section(ctx)
+    context_split_section(ctx)
     # GSUB writers run first
     from ufo2ft.featureCompiler import FeatureCompiler
     from ufo2ft.featureWriters import KernFeatureWriter, MarkFeatureWriter, BaseFeatureWriter
